@@ -248,10 +248,10 @@ fn c08_build(cfg: &[u16]) -> Built {
     let mut setup = vec![];
     rank_setup(&mut s, "#c0", users, &mut setup);
     let prof = Profile::base().with(&[
-        (K::ModeChan, 60),
+        (K::ModeChan, 56),
         (K::Join, 6),
         (K::Part, 3),
-        (K::Kick, 4),
+        (K::Kick, 8),
         (K::Topic, 4),
         (K::Privmsg, 5),
         (K::Invite, 4),
@@ -265,6 +265,7 @@ fn c08_owns(d: &Disc, out: &StepOut, _t: &Trace) -> bool {
     // the MODE command itself and its probes, plus the enforcement of +t by a later TOPIC
     (out.ctx == "MODE#" && not_panic(d) && probe_codes(d, out, &["324", "353", "352", "319", "367", "348", "346"]))
         || (out.ctx == "TOPIC" && !out.is_probe && (d.is_relay(&["TOPIC"]) || d.is_numeric(&["482"])))
+        || (out.ctx == "KICK" && !out.is_probe && (d.is_relay(&["KICK"]) || d.is_numeric(&["482", "972"])))
 }
 
 fn c08_nontrivial(t: &Trace) -> Option<String> {
@@ -865,6 +866,7 @@ fn c02_build(cfg: &[u16]) -> Built {
         (K::Away, 2),
         (K::ModeUser, 2),
         (K::Kick, 2),
+        (K::CapPost, 4),
     ]);
     // few nicks, many connections
     let k = 2 + s.pick(2);
@@ -1013,6 +1015,8 @@ fn c03_build(cfg: &[u16]) -> Built {
         (K::Nick, 4),
         (K::Lusers, 3),
         (K::Quit, 2),
+        (K::CapPost, 6),
+        (K::Drop, 3),
     ]);
     prof.nicks = (0..4).map(|i| format!("n{}", i)).collect();
     prof.reg_passwords = pw;
